@@ -100,23 +100,54 @@ theorem get_filterFields_none (mask : Mask) (k : Name) (hk : mask.find k = none)
 
 /-- `pruneEmpty` leaves a field alone that the mask does not mention. -/
 theorem get_pruneEmpty_other (mask : Mask) (src : Fields) (k : Name) (hk : mask.find k = none) :
-    ∀ dst : Fields, (pruneEmpty mask src dst).get k = dst.get k
-  | .nil => rfl
-  | .cons a v rest => by
-    have ih := get_pruneEmpty_other mask src k hk rest
-    rw [pruneEmpty]
+    ∀ (dst dst' : Fields), pruneEmpty mask src dst = some dst' → dst'.get k = dst.get k
+  | .nil, dst', h => by
+    simp [pruneEmpty] at h; subst h; rfl
+  | .cons a v rest, dst', h => by
+    rw [pruneEmpty] at h
     cases hf : mask.find a with
     | none =>
-      by_cases hak : a = k <;> simp [Fields.get, hak, ih]
+      rw [hf] at h
+      simp only at h
+      cases hr : pruneEmpty mask src rest with
+      | none => rw [hr] at h; cases h
+      | some r =>
+        rw [hr] at h
+        simp only [Option.map_some, Option.some.injEq] at h
+        subst h
+        by_cases hak : a = k <;> simp [Fields.get, hak, get_pruneEmpty_other mask src k hk rest r hr]
     | some sub =>
       have hak : ¬ a = k := by
         intro e; subst e; rw [hk] at hf; cases hf
-      simp only
-      cases hs : src.get a with
-      | none => simp [Fields.get, hak, ih]
-      | some sv =>
-        simp only
-        split <;> simp [Fields.get, hak, ih]
+      rw [hf] at h
+      simp only at h
+      have keep : ∀ (w : Val) (r : Option Fields), r.map (Fields.cons a w) = some dst' →
+          r = pruneEmpty mask src rest → dst'.get k = (Fields.cons a v rest).get k := by
+        intro w r hr e
+        cases hr' : pruneEmpty mask src rest with
+        | none => rw [← e] at hr'; rw [hr'] at hr; cases hr
+        | some r' =>
+          rw [← e] at hr'; rw [hr'] at hr
+          simp only [Option.map_some, Option.some.injEq] at hr
+          subst hr
+          rw [e] at hr'
+          simp [Fields.get, hak, get_pruneEmpty_other mask src k hk rest r' hr']
+      have drop : pruneEmpty mask src rest = some dst' → dst'.get k = (Fields.cons a v rest).get k := by
+        intro hr
+        simp [Fields.get, hak, get_pruneEmpty_other mask src k hk rest dst' hr]
+      split at h
+      · split at h
+        · split at h
+          · exact drop h
+          · split at h
+            · cases h
+            · exact keep _ _ h rfl
+        · exact drop h
+      · split at h
+        · split at h
+          · cases h
+          · exact keep _ _ h rfl
+        · exact keep _ _ h rfl
 
 /-- `fmutils.Prune` leaves a field alone that the mask does not mention. -/
 theorem get_pruneFields_other (mask : Mask) (k : Name) (hk : mask.find k = none) :
@@ -218,6 +249,20 @@ theorem fromPaths_not_empty {p : Path} {ps : List Path} (hc : Clean (p :: ps)) (
   | false => rfl
   | true => exact absurd ((Mask.insertAll_nil_isEmpty _).mp hh p (List.mem_cons_self ..)) hn
 
+/-- `nestedMask` of a non-empty list of non-empty clean paths is not empty. -/
+theorem nestedMask_not_empty {ps : List Path} (hc : Clean ps) (hn : NonNil ps) (hne : ps ≠ []) :
+    (nestedMask ps).isEmpty = false := by
+  unfold nestedMask
+  cases hm : minimal ps with
+  | nil => exact absurd ((minimal_eq_nil_iff ps).mp hm) hne
+  | cons q qs =>
+    have hq : q ∈ minimal ps := by rw [hm]; exact List.mem_cons_self ..
+    rw [← hm]
+    rw [Mask.fromPaths_eq (clean_minimal hc)]
+    cases hh : (Mask.insertAll .nil (minimal ps)).isEmpty with
+    | false => rfl
+    | true => exact absurd ((Mask.insertAll_nil_isEmpty _).mp hh q hq) (nonNil_minimal hn q hq)
+
 /-- No path of `ps` starts with `k`. -/
 def NoHead (k : Name) (ps : List Path) : Prop := tails k ps = []
 instance (k : Name) (ps : List Path) : Decidable (NoHead k ps) := by unfold NoHead; infer_instance
@@ -225,5 +270,18 @@ instance (k : Name) (ps : List Path) : Decidable (NoHead k ps) := by unfold NoHe
 theorem find_fromPaths_noHead {k : Name} {ps : List Path} (hc : Clean ps) (h : NoHead k ps) :
     (Mask.fromPaths ps).find k = none := by
   rw [Mask.find_fromPaths hc, h]; rfl
+
+theorem noHead_minimal {k : Name} {ps : List Path} (h : NoHead k ps) : NoHead k (minimal ps) := by
+  unfold NoHead at *
+  cases ht : tails k (minimal ps) with
+  | nil => rfl
+  | cons t ts =>
+    have : t ∈ tails k (minimal ps) := by rw [ht]; exact List.mem_cons_self ..
+    have := mem_tails.mpr (minimal_subset (mem_tails.mp this))
+    rw [h] at this; cases this
+
+theorem find_nestedMask_noHead {k : Name} {ps : List Path} (hc : Clean ps) (h : NoHead k ps) :
+    (nestedMask ps).find k = none :=
+  find_fromPaths_noHead (clean_minimal hc) (noHead_minimal h)
 
 end ScVerif.C05
